@@ -519,7 +519,31 @@ def quick_configs(r, n_random=40):
         order = "null" if c == 8 and r.random() < 0.3 else r.choice(["le", "be"])
         out.append(Config(ty, w, c, o, order, "offset", pick_align(r, c, "offset")))
     out.extend(special_configs())
+    out.extend(enum_grid(r))
     return normalise_align([c for c in dict.fromkeys(out) if config_valid(c)], r)
+
+
+def enum_grid(r):
+    """EnumView over the whole (w, uw, W) grid — field width, width of the enum's underlying
+    type, width of the bit view's value type (W = least_width(c)) — for both signednesses:
+    w = uw = W, w = uw < W (the case repaired by the ToBitViewValue fix), w < uw <= W,
+    w <= W < uw (value type narrower than the enum), at the top of the container and at a
+    random offset."""
+    out = []
+    for sign in "su":
+        for uw in (8, 16, 32, 64):
+            ty = "enum%s%d" % (sign, uw)
+            for c in (8, 16, 24, 32, 40, 64):
+                top = min(uw, c)
+                ks = {top, max(1, top - 1), r.randint(1, top)}
+                if sign == "u" and r.random() < 0.5:
+                    ks.discard(max(1, top - 1))
+                for k in sorted(ks):
+                    order = "null" if c == 8 and r.random() < 0.3 else r.choice(["le", "be"])
+                    out.append(Config(ty, k, c, c - k, order, "offset", 1))
+                    if c - k > 1:
+                        out.append(Config(ty, k, c, r.randint(0, c - k - 1), order, "offset", 1))
+    return out
 
 
 def special_configs():
@@ -612,14 +636,12 @@ def contents_for(cfg, r, n):
             vals.append(r.getrandbits(c))
     vals = vals[:n - 2]
     out = [container_bytes("le", nb, v) for v in vals]
-    # wrong-size buffers (IsComplete() must be false; never for null: NullByteOrderer
-    # reports size 1 for any non-null buffer, see notes)
-    if order != "null":
-        out.append([r.getrandbits(8) for _ in range(nb - 1)])
-        out.append([r.getrandbits(8) for _ in range(nb + 1)])
-    else:
-        out.append(container_bytes("le", nb, r.getrandbits(c)))
-        out.append(container_bytes("le", nb, r.getrandbits(c)))
+    # wrong-size buffers (IsComplete() must be false) — for every byte orderer:
+    # NullByteOrderer reports the real storage size since `fix: make a one-byte field without
+    # byte order report its real storage size` (before it answered 1 for any non-null buffer,
+    # so a 0- or 2-byte buffer was "complete" and the 0-byte one was read past its end)
+    out.append([r.getrandbits(8) for _ in range(nb - 1)])
+    out.append([r.getrandbits(8) for _ in range(nb + 1)])
     return out
 
 
@@ -670,6 +692,13 @@ def hexs(d):
 def model_line(cfg, data, argt, value, path):
     return "SCALAR %s %d %d %d %s %s %s %s %s %d" % (
         cfg.ty, cfg.k, cfg.c, cfg.o, cfg.order, cfg.mode, path, hexs(data), argt, value)
+
+
+def struct_line(cfg, byte_off, store, argt, value, path):
+    """STRUCT op: the field's container at byte `byte_off` of the structure's backing store;
+    the model answers with the whole store afterwards (`storeTryToWrite`)."""
+    return "STRUCT %d %s %s %d %d %d %s %s %s %s %d" % (
+        byte_off, hexs(store), cfg.ty, cfg.k, cfg.c, cfg.o, cfg.order, cfg.mode, path, argt, value)
 
 
 def shape_argts(shape, r):
@@ -764,6 +793,7 @@ def finding_key(cfg, value):
         uw = enum_info(cfg.ty)[0]
         if cfg.k < uw:
             return "signed-enum-in-field-narrower-than-underlying-type"
-        if cfg.k < least_width(cfg.c) and value is not None and value < 0:
-            return "signed-enum-negative-value-in-bits-wider-than-field"
+        # (`signed-enum-negative-value-in-bits-wider-than-field` — k == uw inside a wider
+        # container — was repaired by `fix: let a negative value of a signed enum be written
+        # to a full-width field inside a wider bits`: no routing, a recurrence is a violation)
     return None
